@@ -174,7 +174,7 @@ PROPS = {
         "generators": ["C15"],
         "gen_obligations": ["lib_writes_only_fresh_buffers", "version_bytes_match"],
         "thorough_seeds": 1,
-        "rule": "random 33-byte keys x both networks through all constructors; for 5 (quick) / 120 (thorough) valid addresses: all 34x57 substitutions (quick: 1 in 4), 33 transpositions, 35x58 insertions (quick: 1 in 6), 34 deletions, extra/missing leading 1, non-alphabet and non-ASCII characters, 6 wrong versions, 4 wrong payload lengths, wrong checksum, 8 wrap-around strings (payload + k*2^200); random base58 strings. Non-trivial = string of >= 20 characters or a key op.",
+        "rule": "random 33-byte keys x both networks through all constructors; for 5 (quick) / 120 (thorough) valid addresses: all 34x57 substitutions (quick: 1 in 4), 33 transpositions, 35x58 insertions (quick: 1 in 6), 34 deletions, extra/missing leading 1, non-alphabet and non-ASCII characters, 6 wrong versions, 4 wrong payload lengths, wrong checksum, 8 wrap-around strings (payload + k*2^200); random base58 strings. plus 60 / 3000 keys x amounts (0, 1, dust, the coin cap, 2^63, 2^64-7..) through the seven transaction-level constructors (C15.out). Non-trivial = string of >= 20 characters or a key op.",
         "nontrivial": lambda op, impl: len(op) >= 48,
         "trusted_base": COMMON_TB + ["go-bk base58 is modelled (Encode/Decode as arithmetic on the big-endian value)", "SHA-256 / RIPEMD-160 executable models validated on vectors"],
         "assumptions": ["ASCII address strings (non-ASCII bytes are exercised but only for rejection)"],
@@ -333,6 +333,25 @@ PROPS["C15"]["manifest"]["text"] += (" The converse is proved as well: every add
 for _p in ("C05", "C06"):
     PROPS[_p]["manifest"]["text"] += (" The Lean model is anchored independently of go-bt: on every run it is executed on the node-generated vectors shipped in the"
                                      " repository (script_tests.json; the ones " + ("without" if _p == "C05" else "with") + " signature opcodes here) and its verdict must be the node's.")
+
+# session 7: the output constructors, the cleared-inputs serialisation and the validation gates (found unreached by a
+# function-coverage run of the correspondence streams, DESIGN.md §11.4)
+PROPS["C14"]["manifest"]["text"] += (" The data output the library builds itself is covered by theorems (opreturn_output_is_data: for every list of items"
+                                     " CreateOpReturnOutput can encode the script is typed data; opreturn_output_exists: nothing below 2^32 bytes per item is"
+                                     " refused) and by the ops C14.opret / C14.puzzle, which run CreateOpReturnOutput, AddOpReturnOutput, AddOpReturnPartsOutput,"
+                                     " AppendPushDataStrings, DecodeStringParts, HasDataOutputs and AddHashPuzzleOutput against the model GoBT/Script/Build.lean.")
+PROPS["C15"]["manifest"]["text"] += (" The transaction-level constructors of txoutput.go (AddP2PKHOutputFromPubKeyBytes / PubKeyStr / PubKeyHashStr / Address /"
+                                     " Script, PayTo, PayToAddress) are run on one transaction per key by the op C15.out: seven outputs with the canonical script,"
+                                     " non-templates refused, the caller's key buffer untouched.")
+PROPS["C01"]["manifest"]["text"] += (" Tx.BytesWithClearedInputs, IsCoinbase, InputIdx / OutputIdx are modelled as well (op C01.misc; cleared_nil_is_bytes,"
+                                     " cleared_out_of_range).")
+PROPS["C20"]["manifest"]["text"] += (" The validation gates are theorems and a stream of their own: listing_gate_protects_outpoint, bid_gate_protects_outpoint,"
+                                     " bid2d_gate_protects_outpoints (an offer passes only if the protected input(s) spend exactly the expected outpoint(s), the bid"
+                                     " is written where the flow says and the quoted fee is paid) and accept_*_needs_valid_offer (no completing flow builds a"
+                                     " transaction from an offer its gate refuses); op C20.validate generates offers and expectations apart (one bit / one byte of"
+                                     " the outpoint changed, lists one short or long, dummies that do not add up, unaffordable bids).")
+PROPS["C18"]["manifest"]["text"] += (" The shared-state extractor also lists package-level arrays that are sliced and copy() into package-level variables; scenario"
+                                     " enginelong validates transactions with scripts longer than the decoder's 64 KiB read chunk concurrently.")
 
 NOT_APPLICABLE = {}
 HOOK_COMMITS = []
